@@ -430,8 +430,10 @@ func runVerify(c *core.Ctx) {
 				if vc == nil || !r.IsAPI(vc, "BlobCreator", "Verify") || an.Origin(vc.Call.Value) != sess {
 					continue
 				}
-				parsed := true
-				for _, o := range an.Origins(vc.Call.Args[0]) {
+				// (the digest may be a parameter of a commit step: then what every call of the step passes)
+				leaves, complete := originsAcross(c, vc.Call.Args[0], 0)
+				parsed := complete && len(leaves) > 0
+				for _, o := range leaves {
 					if _, isConst := o.(*ssa.Const); isConst {
 						continue // the zero digest of an unset variable never verifies
 					}
@@ -1026,6 +1028,15 @@ func fieldPath(v ssa.Value) []string {
 			st := x.X.Type().Underlying().(*types.Struct)
 			rev = append(rev, st.Field(x.Field).Name())
 			v = x.X
+		case *ssa.Call:
+			// a small accessor of the analysed program that hands out a setting (dr.readOnly()): every return is the read of one
+			// and the same path
+			if len(rev) == 0 {
+				if p := accessorPath(x); p != nil {
+					return p
+				}
+			}
+			return nil
 		case *ssa.Alloc:
 			// a local copy of a part of the configuration (api := s.conf.API) that is only read afterwards
 			if src := readOnlyCopy(x); src != nil {
@@ -1046,6 +1057,39 @@ func fieldPath(v ssa.Value) []string {
 		}
 	}
 	return nil
+}
+
+// accessorPath: call is a static call, without arguments besides the receiver, of a function with a body whose returns
+// all read the same field path: that path.
+func accessorPath(call *ssa.Call) []string {
+	h := call.Call.StaticCallee()
+	if h == nil || len(h.Blocks) == 0 || len(h.Blocks) > 2 || h.Signature.Results().Len() != 1 || len(call.Call.Args) > 1 || isStdlib(core.FuncPkgPath(h)) {
+		return nil
+	}
+	var path []string
+	n := 0
+	for _, b := range h.Blocks {
+		if len(b.Instrs) == 0 {
+			continue
+		}
+		ret, ok := b.Instrs[len(b.Instrs)-1].(*ssa.Return)
+		if !ok || len(ret.Results) != 1 {
+			continue
+		}
+		if _, isCall := ret.Results[0].(*ssa.Call); isCall {
+			return nil
+		}
+		p := fieldPath(ret.Results[0])
+		if len(p) == 0 || (n > 0 && strings.Join(p, ".") != strings.Join(path, ".")) {
+			return nil
+		}
+		path = p
+		n++
+	}
+	if n == 0 {
+		return nil
+	}
+	return path
 }
 
 // readOnlyCopy: the local struct variable is assigned exactly once, as a whole, from a load, and afterwards only read
